@@ -69,7 +69,7 @@ def _prune(variant, keep):
         if d != keep and os.path.isdir(d):
             # only prune old ones (another tree hash), never one in use right now
             try:
-                if time.time() - os.path.getmtime(d) > 3600:
+                if time.time() - os.path.getmtime(d) > 6 * 3600:
                     shutil.rmtree(d, ignore_errors=True)
             except OSError:
                 pass
@@ -82,6 +82,10 @@ def backend(variant='asan'):
     d = os.path.join(BUILD, '%s-%s' % (variant, h))
     so = os.path.join(d, '_cffi_backend' + conf['ext'])
     if os.path.exists(so):
+        try:
+            os.utime(d)          # mark as in use: _prune() goes by directory mtime
+        except OSError:
+            pass
         return d
     lk = _lock()
     try:
